@@ -14,6 +14,7 @@
 #include "c20_lang.inc"
 #include "c20_addr.inc"
 #include "c20_init.inc"
+#include "c20_expl.inc"
 
 using namespace c20;
 
@@ -35,7 +36,7 @@ static std::vector<std::vector<i64>> read_lists(Toks& in)
 }
 
 // The op table is split into groups so that props/C20/pcxx.py can compile them as separate translation units in
-// parallel (-DC20_NPARTS=7 -DC20_PART=k; one single TU takes ~1 minute).  Without -DC20_NPARTS everything is one
+// parallel (-DC20_NPARTS=8 -DC20_PART=k; one single TU takes ~1 minute).  Without -DC20_NPARTS everything is one
 // translation unit.
 namespace c20 {
 bool run_part0(std::string const& op, Toks& in, Out& impl, Out& ref);
@@ -45,6 +46,7 @@ bool run_part3(std::string const& op, Toks& in, Out& impl, Out& ref);
 bool run_part4(std::string const& op, Toks& in, Out& impl, Out& ref);
 bool run_part5(std::string const& op, Toks& in, Out& impl, Out& ref);
 bool run_part6(std::string const& op, Toks& in, Out& impl, Out& ref);
+bool run_part7(std::string const& op, Toks& in, Out& impl, Out& ref);
 } // namespace c20
 
 #if !defined(C20_NPARTS) || C20_PART == 0
@@ -520,6 +522,28 @@ bool c20::run_part6(std::string const& op, Toks& in, Out& impl, Out& ref)
 }
 #endif
 
+#if !defined(C20_NPARTS) || C20_PART == 7
+bool c20::run_part7(std::string const& op, Toks& in, Out& impl, Out& ref)
+{
+    if (op == "expl") {
+        // the conditional explicit-specifier of the pair / tuple constructors (c20_expl.inc): static facts, etl next to std
+        auto site = static_cast<int>(in.num());
+        auto n    = static_cast<int>(in.num());
+        std::vector<int> codes;
+        for (int k = 0; k < n; ++k) { codes.push_back(static_cast<int>(in.num())); }
+        expl::run_expl<EtlLib>(site, codes, impl);
+        expl::run_expl<StdLib>(site, codes, ref);
+        return true;
+    }
+    if (op == "explelem") {
+        // the element table of op expl: the compiler is the reference, reference and spec legs are na
+        expl::run_explelem(static_cast<int>(in.num()), impl);
+        return true;
+    }
+    return false;
+}
+#endif
+
 #if !defined(C20_NPARTS) || C20_PART == 0
 bool vh::run_case(std::string const& op, Toks& in, Out& impl, Out& ref)
 {
@@ -529,7 +553,8 @@ bool vh::run_case(std::string const& op, Toks& in, Out& impl, Out& ref)
         || c20::run_part3(op, in, impl, ref)
         || c20::run_part4(op, in, impl, ref)
         || c20::run_part5(op, in, impl, ref)
-        || c20::run_part6(op, in, impl, ref);
+        || c20::run_part6(op, in, impl, ref)
+        || c20::run_part7(op, in, impl, ref);
 }
 
 VERIF_MAIN()
